@@ -13,7 +13,7 @@ META = {
                  "dominating bound; R03.4 no recursion whose depth is controlled by the input, no VLA with an unbounded bound; "
                  "R03.5 interval check of every signed arithmetic/shift/division reachable from the read entry points; R03.6 "
                  "inet_ntop sources have a checked length; R03.7 every throw is std::exception-derived, no handler on the read "
-                 "path, every tool main wraps its read-API calls in a try with a std::exception/... handler that returns. R03.8: a reference/pointer/iterator into a vector, string or deque is not used after a call that may reallocate or shrink the container. R03.9: a cursor that subscripts the input advances by a step whose interval is >= 1. The read side is everything reachable from the decoder, the reader, the renderers and the five tool mains. R03.11: a pointer / iterator member that refers into a container of the same object (also through accessors of a member object) is re-seated by every member function that can reallocate that container. R03.10: the container FilePreamble::read appends the input's block parameters to is tested for emptiness on every accepting path and is what m_block_parameters holds afterwards (callers take entry 0 outside any handler). R03.3: a min() bound only sanitises an allocation size when the bound is a constant or the size of an existing container - members and parameters may themselves come from the input. R03.2 bounds a built-in array subscript by the interval of the index expression against the array extent.",
+                 "path, every tool main wraps its read-API calls in a try with a std::exception/... handler that returns. R03.8: a reference/pointer/iterator into a vector, string or deque is not used after a call that may reallocate or shrink the container. R03.9: a cursor that subscripts the input advances by a step whose interval is >= 1. The read side is everything reachable from the decoder, the reader, the renderers and the five tool mains. R03.11: a pointer / iterator member that refers into a container of the same object (also through accessors of a member object) is re-seated by every member function that can reallocate that container. R03.10: the container FilePreamble::read appends the input's block parameters to is tested for emptiness on every accepting path and is what m_block_parameters holds afterwards (callers take entry 0 outside any handler). R03.3: a min() bound only sanitises an allocation size when the bound is a constant or the size of an existing container - members and parameters may themselves come from the input. R03.2 bounds a built-in array subscript by the interval of the index expression against the array extent. R03.12: every `*o` / `o->` / `o.value()` of an optional: under a presence test of the same optional (dominating guard, left operand of the same &&, condition of the same ?:) or straight after a statement of the same list that stores a value into it; under the NEGATED presence test = violation; `*` / `->` with neither = unrecognised.",
     "explanation": "Clause-by-clause static rules over the functions reachable from the read entry points (resolved call graph). "
                    "Full memory safety of C++ is not decided: use-after-free in general, uninitialised reads and libstdc++/boost "
                    "internals are outside reach (C19 covers the one ownership hazard the code has).",
@@ -159,6 +159,102 @@ def check_subscripts(run, rule, fns):
                                ik, ck, ck, show_f(g)))
     run.floor(rule, 12, "sequence subscripts on the read side")
     run.info["subscripts"] = n
+
+
+def check_optional_derefs(run, rule):
+    """An optional is dereferenced (`*o`, `o->`, `o.value()`, `o.get()`) where it is known to hold a value.  Decided for the
+    case that can be read off the guard: a dereference that sits under the *negated* presence test of the same optional (and
+    the function does not assign it) is taken exactly when there is nothing to take - the field is skipped for every record
+    that has it, and a record without it throws (value()) or is undefined behaviour (*, ->).  A dereference whose guard says
+    nothing about the optional is left to the rules that own the function."""
+    facts = run.facts
+    n = ok_n = 0
+    for f in sorted(facts.functions.values(), key=lambda f_: (f_.get("file", ""), f_.get("line", 0))):
+        if not f.get("file", "").startswith(facts.repo) or f.get("body") is None:
+            continue
+        env = Env(f["body"])
+        assigned = set()
+        for x in ir.walk(f["body"]):
+            if x.get("k") == "OpCall" and x.get("op") == "=" and x.get("args") and path(x["args"][0]):
+                assigned.add(tuple(path(x["args"][0])))
+            if x.get("k") == "Bin" and x.get("op") == "=" and path(x.get("lhs")):
+                assigned.add(tuple(path(x["lhs"])))
+            if x.get("k") == "MCall" and callee_name(x) in ("emplace", "reset", "swap") and path(x.get("recv")):
+                assigned.add(tuple(path(x["recv"])))
+        seen = {}
+        for st, g, loops in ir.guarded_statements_lc(f["body"], env):
+            nodes = list(ir.walk(st["cond"])) if st.get("k") == "IfCond" else \
+                ([] if st.get("k") in ("LoopHead", "SwitchHead") else list(ir.walk(st)))
+            for nd in nodes:
+                tgt = None
+                if nd.get("k") == "OpCall" and nd.get("op") in ("*", "->") and nd.get("args") and "optional<" in ((nd.get("callee") or {}).get("cls") or ""):
+                    tgt, kind = nd["args"][0], nd["op"]
+                elif nd.get("k") == "MCall" and callee_name(nd) in ("value", "get") and "optional<" in ((nd.get("callee") or {}).get("cls") or ""):
+                    tgt, kind = nd.get("recv"), callee_name(nd) + "()"
+                if tgt is None:
+                    continue
+                p_ = path(tgt)
+                if p_ is None:
+                    continue
+                n += 1
+                atoms = conjuncts(g)
+                pos = any(isinstance(a, tuple) and a[0] == "present" and tuple(a[1]) == tuple(p_) for a in atoms)
+                neg = any(isinstance(a, tuple) and a[0] == "not" and isinstance(a[1], tuple) and a[1][0] == "present" and tuple(a[1][1]) == tuple(p_) for a in atoms)
+                if not pos and not neg:
+                    # `o && f(*o)`: the dereference is the right operand of an && whose left operand tests o
+                    root = st["cond"] if st.get("k") == "IfCond" else st
+                    for n2_, ps2_ in ir.walk_with_parents(root):
+                        if n2_ is nd:
+                            for a_ in ps2_:
+                                if isinstance(a_, dict) and a_.get("k") == "Bin" and a_.get("op") == "&&" and any(y_ is nd for y_ in ir.walk(a_.get("rhs"))):
+                                    if any(isinstance(c_, tuple) and c_[0] == "present" and tuple(c_[1]) == tuple(p_) for c_ in conjuncts(ir.cond(a_["lhs"], env))):
+                                        pos = True
+                                if isinstance(a_, dict) and a_.get("k") == "Cond" and any(y_ is nd for y_ in ir.walk(a_.get("a"))):
+                                    if any(isinstance(c_, tuple) and c_[0] == "present" and tuple(c_[1]) == tuple(p_) for c_ in conjuncts(ir.cond(a_["c"], env))):
+                                        pos = True
+                if not pos and not neg and st.get("k") not in ("IfCond",):
+                    # `o = T(); o->read(..)`: a value was stored by an earlier statement of the same list, nothing emptied it since
+                    for b_ in ir.walk(f["body"]):
+                        lst_ = b_.get("s") if b_.get("k") == "Block" else None
+                        if not lst_:
+                            continue
+                        i_ = [j for j, y in enumerate(lst_) if y is st or unwrap(y) is st]
+                        if not i_:
+                            continue
+                        for y in reversed(lst_[:i_[0]]):
+                            u_ = unwrap(y)
+                            while isinstance(u_, dict) and u_.get("k") in ("Case", "Default") and isinstance(u_.get("sub"), dict):
+                                u_ = unwrap(u_["sub"])          # (the first statement after a label hangs below the label)
+                            stores = None
+                            if isinstance(u_, dict) and u_.get("k") == "OpCall" and u_.get("op") == "=" and u_.get("args") and path(u_["args"][0]) == p_:
+                                r_ = unwrap_all_casts(u_["args"][1])
+                                stores = isinstance(r_, dict) and not ("none" in show(r_)) and "optional<" not in (r_.get("t") or "")
+                            elif isinstance(u_, dict) and u_.get("k") == "MCall" and path(u_.get("recv")) == p_ and callee_name(u_) == "emplace":
+                                stores = True
+                            if stores is not None:
+                                pos = pos or stores
+                                break
+                            if any(path(x) and tuple(path(x))[:len(p_)] == tuple(p_) and x is not u_ for x in ir.walk(y) if x.get("k") in ("OpCall", "MCall") for x in [x.get("args", [None])[0] if x.get("k") == "OpCall" else x.get("recv")] if isinstance(x, dict)):
+                                break
+                if pos:
+                    ok_n += 1
+                elif not neg and not kind.endswith(")"):
+                    base = "%s:%s (%s)" % (fname(f), path_str(p_), kind)
+                    seen[base] = seen.get(base, 0) + 1
+                    run.ob(rule, base if seen[base] == 1 else "%s#%d" % (base, seen[base]), None, f, nd.get("l", 0),
+                           "%s is dereferenced with %s; no presence test of it dominates the access and no value is stored into it just before "
+                           "(guard: %s)" % (path_str(p_), kind, show_f(g)[:120]))
+                if neg and not pos and tuple(p_) not in assigned and not any(tuple(p_)[:k_] in assigned for k_ in range(1, len(p_))):
+                    base = "%s:%s%s" % (fname(f), path_str(p_), ("." + kind) if kind.endswith(")") else " (%s)" % kind)
+                    seen[base] = seen.get(base, 0) + 1
+                    run.ob(rule, base if seen[base] == 1 else "%s#%d" % (base, seen[base]), False, f, nd.get("l", 0),
+                           "%s is dereferenced where the guard says it is EMPTY (%s): the branch runs for exactly the records that lack the value - "
+                           "%s - and is skipped for those that have it" % (
+                               path_str(p_), show_f(g)[:120], "boost::bad_optional_access is thrown" if kind.endswith(")") else "undefined behaviour (an empty optional is read)"))
+    run.ob(rule, "optional-dereferences", ok_n > 0, None, 0,
+           "%d dereferences of optionals looked at, %d of them directly under a presence test of the same optional, none under its negation" % (n, ok_n),
+           nontrivial=False)
+    run.info["optional_derefs"] = n
 
 
 # ------------------------------------------------------------------ R03.3 taint to allocation
@@ -925,6 +1021,7 @@ def check(run):
     run.floors.pop("R03.1", None)
     run.floor("R03.1", 10, "decoder window obligations")
     check_subscripts(run, "R03.2", fns)
+    check_optional_derefs(run, "R03.12")
     check_taint(run, "R03.3", fns)
     check_recursion(run, "R03.4", reach, cg, mains)
     # R03.5
